@@ -29,6 +29,8 @@ type c06Case struct {
 	// TargetDB (incremental path): 0 means target.db=-1 (keep the source database), n>0 means
 	// everything is written into database n-1 of the target
 	TargetDB int `json:"target_db_plus1"`
+	// RefuseScript (full path): the target answers SCRIPT LOAD with an error
+	RefuseScript bool `json:"target_refuses_script_load,omitempty"`
 }
 
 var c06Reg = mredis.NewRegistry()
@@ -66,7 +68,14 @@ func c06Full(c c06Case) (string, string) {
 	conf.Options.BigKeyThreshold = 1 << 30
 	conf.Options.TargetVersion = ""
 	conf.Options.TargetType = "standalone"
-	srv := mredis.New(mredis.Options{Registry: c06Reg})
+	scriptRefused := false
+	srv := mredis.New(mredis.Options{Registry: c06Reg, ReplyHook: func(cmd mredis.Cmd) []byte {
+		if c.RefuseScript && cmd.Name() == "script" {
+			scriptRefused = true
+			return []byte("-BUSY Redis is busy running a script. You can only call SCRIPT KILL or SHUTDOWN NOSAVE.\r\n")
+		}
+		return nil
+	}})
 	hook.SetDialHook(func(network, addr string) (net.Conn, error, bool) {
 		cc, sc := memconn.Pair("target")
 		go srv.Serve(sc)
@@ -84,6 +93,14 @@ func c06Full(c c06Case) (string, string) {
 		err = ds.syncRDBFile(bufio.NewReaderSize(bytes.NewReader(file), 4096), []string{"target:6379"}, "auth", "", int64(len(file)), false)
 	}()
 	<-done
+	if scriptRefused {
+		// the script the filter lets through did not reach the target: the full sync must not
+		// report success
+		if !aborted && err == nil {
+			return "script-refusal-ignored", "the target answered SCRIPT LOAD with an error and the full sync reports success without the script"
+		}
+		return "", ""
+	}
 	if aborted || err != nil {
 		return "abort", fmt.Sprintf("full sync fails: %v", err)
 	}
@@ -366,6 +383,11 @@ func TestVerif_C06(t *testing.T) {
 				var k, w string
 				if path == "full" {
 					k, w = c06Full(c)
+					if k == "" && tdb == 0 {
+						c.RefuseScript = true
+						k, w = c06Full(c)
+						n++
+					}
 				} else {
 					k, w = c06Incr(t, c)
 				}
